@@ -34,20 +34,20 @@ type Call struct {
 	Err      string `json:"err,omitempty"`
 	// error classes
 	NotFound, Conflict, OwnerConflict, PhaseConflict, CtxErr bool
-	Ready                                                   *bool    `json:"ready,omitempty"`
-	Res                                                     *gp.Snap `json:"res,omitempty"`
-	Token                                                   string   `json:"token,omitempty"`
-	Fin                                                     string   `json:"fin,omitempty"`
-	Fins []string `json:"fins,omitempty"` // all finalizers named by the call (Fin is the first)
-	Owner                                                   string   `json:"owner_opt"`
-	Phase                                                   string   `json:"phase_opt,omitempty"` // running | tearingDown | any
-	Mut                                                     string   `json:"mut,omitempty"`       // append | noop | fail
-	Cond                                                    int      `json:"cond,omitempty"`
-	CondN                                                   uint64   `json:"cond_n,omitempty"`
-	Via                                                     string   `json:"via,omitempty"`
-	CtxCancelled                                            bool     `json:"ctx_cancelled,omitempty"`
-	CtxCause                                                string   `json:"ctx_cause,omitempty"`
-	At                                                      int64    `json:"at_ms"`
+	Ready                                                    *bool    `json:"ready,omitempty"`
+	Res                                                      *gp.Snap `json:"res,omitempty"`
+	Token                                                    string   `json:"token,omitempty"`
+	Fin                                                      string   `json:"fin,omitempty"`
+	Fins                                                     []string `json:"fins,omitempty"` // all finalizers named by the call (Fin is the first)
+	Owner                                                    string   `json:"owner_opt"`
+	Phase                                                    string   `json:"phase_opt,omitempty"` // running | tearingDown | any
+	Mut                                                      string   `json:"mut,omitempty"`       // append | noop | fail
+	Cond                                                     int      `json:"cond,omitempty"`
+	CondN                                                    uint64   `json:"cond_n,omitempty"`
+	Via                                                      string   `json:"via,omitempty"`
+	CtxCancelled                                             bool     `json:"ctx_cancelled,omitempty"`
+	CtxCause                                                 string   `json:"ctx_cause,omitempty"`
+	At                                                       int64    `json:"at_ms"`
 
 	tdCtx context.Context //nolint:containedctx
 }
@@ -65,12 +65,12 @@ type Opts struct {
 
 // Outcome is everything a scenario observed.
 type Outcome struct {
-	Calls   []*Call        `json:"calls"`
-	Log     []gp.Commit    `json:"log"`
-	Watches []gp.WatchRec  `json:"watches"`
-	OpsHash string         `json:"ops_hash"`
+	Calls   []*Call             `json:"calls"`
+	Log     []gp.Commit         `json:"log"`
+	Watches []gp.WatchRec       `json:"watches"`
+	OpsHash string              `json:"ops_hash"`
 	Final   map[string]*gp.Snap `json:"final"`
-	Stuck   []string       `json:"stuck,omitempty"` // non-blocking helpers that never returned
+	Stuck   []string            `json:"stuck,omitempty"` // non-blocking helpers that never returned
 	// Retries: store-level update attempts by helper calls beyond the commits they made (conflict retries observed).
 	Retries int `json:"retries"`
 }
